@@ -98,27 +98,68 @@ theorem uniqueName_spec (base : Str) (used : List Str) (n : Str) (used' : List S
 
 /-! ### the wrapper -/
 
-
 def wrun (w : Wrapper) : List WOp → Wrapper
   | [] => w
   | op :: ops => wrun (wstep w op).1 ops
 
-/-- The cache is empty or holds the loaded problem. -/
-def WInv (w : Wrapper) : Prop := w.cached = none ∨ w.cached = w.loaded
+def wrunLegacy (w : Wrapper) : List WOp → Wrapper
+  | [] => w
+  | op :: ops => wrunLegacy (wstepLegacy w op).1 ops
+
+/-- project name a source gives a fresh wrapper -/
+def srcName : Src → Option Nat
+  | .file k => some k
+  | _ => none
+
+/-- what the load performed last stands for (specification: a function of that one operation) -/
+def lastLoad (ops : List WOp) : Option Res :=
+  ops.foldl (fun acc op => match op with | .load i s => some (i, srcName s) | .target => acc) none
+
+/-- what a wrapper would report now -/
+def expected (w : Wrapper) : Option Res := w.loaded.map fun i => (i, w.name)
+
+/-- The cache is empty or holds the result of the loaded problem under the current project name. -/
+def WInv (w : Wrapper) : Prop := w.cached = none ∨ w.cached = expected w
 
 theorem wstep_inv (w : Wrapper) (op : WOp) (h : WInv w) : WInv (wstep w op).1 := by
   cases op with
-  | load i => exact Or.inl rfl
+  | load i src => cases src <;> exact Or.inl rfl
   | target =>
     unfold wstep
     cases hc : w.cached with
     | some r => simp only; exact h
-    | none => simp only; exact Or.inr rfl
+    | none =>
+      cases hl : w.loaded with
+      | none => simp only; exact Or.inl hc
+      | some i => simp only; exact Or.inr (by simp [expected])
 
 theorem wrun_inv : ∀ (ops : List WOp) (w : Wrapper), WInv w → WInv (wrun w ops) := by
   intro ops
   induction ops with
   | nil => intro w h; exact h
   | cons op ops ih => intro w h; exact ih _ (wstep_inv w op h)
+
+theorem expected_step (w : Wrapper) (op : WOp) :
+    expected (wstep w op).1 = (match op with | .load i s => some (i, srcName s) | .target => expected w) := by
+  cases op with
+  | load i src => cases src <;> simp [wstep, expected, srcName]
+  | target =>
+    unfold wstep
+    cases hc : w.cached with
+    | some r => rfl
+    | none =>
+      cases hl : w.loaded with
+      | none => rfl
+      | some i => simp [expected, hl]
+
+theorem expected_run : ∀ (ops : List WOp) (w : Wrapper),
+    expected (wrun w ops) =
+      ops.foldl (fun acc op => match op with | .load i s => some (i, srcName s) | .target => acc) (expected w) := by
+  intro ops
+  induction ops with
+  | nil => intro w; rfl
+  | cons op ops ih =>
+    intro w
+    rw [wrun, ih, expected_step, List.foldl_cons]
 
 end OP.C16
